@@ -28,6 +28,11 @@ func (pass *HintObject) processObject(_ *Visitor, _ *ast.Schema, object ast.Obje
 		return object, nil
 	}
 
+	// types described in a transformation file (retype_object, add_object) come without a hints map
+	if object.Type.Hints == nil {
+		object.Type.Hints = make(ast.JenniesHints)
+	}
+
 	hintsTrail := make([]string, 0, len(pass.Hints))
 	for hint, val := range pass.Hints {
 		object.Type.Hints[hint] = val
